@@ -407,7 +407,7 @@ class Unit:
     """One function of /repo under contract."""
 
     def __init__(self, name, file, fn, header, impl=None, sig=None, wrap=('', ''), loops=(), subs=(), proofs=(),
-                 pre='', anyhow=True, fn_rx=None, serves=(), note='', rules=True, post_subs=(), text=None, subs_all=(), closures=None, rsubs=(), mut_self=False):
+                 pre='', anyhow=True, fn_rx=None, serves=(), note='', rules=True, post_subs=(), text=None, subs_all=(), closures=None, rsubs=(), mut_self=False, strlit=False):
         self.name = name          # display name, e.g. "Bound::pow"
         self.file = file
         self.impl = impl          # regex of the impl header (None = free fn)
@@ -421,6 +421,7 @@ class Unit:
         self.post_subs = list(post_subs)
         self.subs_all = list(subs_all)   # (from, to, count): every occurrence, count must match
         self.mut_self = mut_self
+        self.strlit = strlit      # R8: string literals -> StrLit(<crc32 of the text>) (identity of literals only)
         self.rsubs = list(rsubs)         # (regex, replacement, expected count) applied after the rules
         self.closures = closures  # None = not checked; else list of dicts (params, typed, ret, ensures)
         self.proofs = list(proofs)  # (anchor, text): anchor 'start' | ('before', regex) | ('after', regex)
@@ -443,6 +444,11 @@ class Unit:
         body = f['body']
         if self.apply_rules:
             body = rules.apply(body, anyhow=self.anyhow)
+        if self.strlit:
+            body, n = re.subn(r'"((?:[^"\\]|\\.)*)"', lambda m: strlit_of(m.group(1)), body)
+            rules.hit('R8', n)
+        if self.strlit:
+            body = explicit_err_conversion(body, rules)
         if self.mut_self:
             # R16: Verus does not support `mut self`: bind it to a local and rename
             if not re.search(r'\(\s*mut self\b', f['sig']):
@@ -485,6 +491,38 @@ class Unit:
                          proof_blocks=len(self.proofs))
         # line bookkeeping: header lines, then body starts at repo line f['body_line']
         return text, f
+
+
+def explicit_err_conversion(body, rules):
+    """R26: `X.ok_or(RawParseError::..)?` -> `X.ok_or(ParseError::from(RawParseError::..))?` - the installed Verus does not model the
+    implicit `From` conversion performed by `?`; the conversion call is the one `?` would make."""
+    out = []
+    i = 0
+    while True:
+        k = body.find('.ok_or(', i)
+        if k < 0:
+            out.append(body[i:])
+            break
+        p0 = k + len('.ok_or')
+        p1 = match_close(body, p0, '(', ')')
+        inner = body[p0 + 1:p1]
+        if inner.lstrip().startswith('RawParseError::') and body[p1 + 1:p1 + 2] == '?':
+            out.append(body[i:p0] + '(ParseError::from(' + inner + '))')
+            rules.hit('R26')
+        else:
+            out.append(body[i:p1 + 1])
+        i = p1 + 1
+    return ''.join(out)
+
+
+def strlit_of(text):
+    import zlib
+    return 'StrLit(%d)' % zlib.crc32(text.encode())
+
+
+def expand_sl(text):
+    """sl!("...") in hand-written contracts -> the same StrLit(<crc32>) the extractor produces for that literal"""
+    return re.sub(r'sl!\("((?:[^"\\]|\\.)*)"\)', lambda m: strlit_of(m.group(1)), text)
 
 
 class Assembly:
@@ -542,6 +580,7 @@ class Assembly:
         for kind, name, text, meta in self.parts:
             if lits_marker in text:
                 text = text.replace(lits_marker, self.literal_fns())
+            text = expand_sl(text)
             if not text.endswith('\n'):
                 text += '\n'
             n = text.count('\n')
